@@ -298,11 +298,12 @@ CHECKS = {
         'assumptions': ['errors raised inside conversion hooks (B, S, ==) on user objects are outside the property and not generated', 'try / Either handlers are covered by C13; here the handlers are ~ chains and pending defers'],
     },
     'C08': {
-        'lean_modules': ['Pangaea.Theorems.C08', 'Pangaea.Theorems.C08Out'],
-        'theorem_modules': ['Pangaea.Theorems.C08', 'Pangaea.Theorems.C08Out'],
+        'lean_modules': ['Pangaea.Theorems.C08', 'Pangaea.Theorems.C08Out', 'Pangaea.Theorems.C08Order'],
+        'theorem_modules': ['Pangaea.Theorems.C08', 'Pangaea.Theorems.C08Out', 'Pangaea.Theorems.C08Order'],
         'theorems': ['Pangaea.C08.kwparams_any_order', 'Pangaea.C08.kwvars_any_order', 'Pangaea.C08.sortNames_eq_of_perm', 'Pangaea.C08.sortPairs_perm', 'Pangaea.C08.lookup_perm',
                      'Pangaea.C08.addFirst_keeps', 'Pangaea.C08.addAllFirst_keeps', 'Pangaea.Core.allStable', 'Pangaea.C08.output_only_grows',
-                     'Pangaea.C08.program_output_only_grows', 'Pangaea.C08.call_output_only_grows', 'Pangaea.C08.stdin_only_consumed'],
+                     'Pangaea.C08.program_output_only_grows', 'Pangaea.C08.call_output_only_grows', 'Pangaea.C08.stdin_only_consumed',
+                     'Pangaea.C08.elems_left_to_right', 'Pangaea.C08.seq_of_gives', 'Pangaea.C08.gives_of_seq'],
         'harness': ['C08'],
         'shards': 14,
         'spec_is_function': True,
